@@ -239,6 +239,8 @@ LeafVerdictOf(P, lf) ==
                      d |-> (IF s.t \in {"D1newfrom", "D2newfrom"} THEN Ones(n) ELSE d), raw2 |-> h]
          IN IF ~(other.k \in {"D1", "D2"}) THEN "skip"
             ELSE IF Len(src.d) # n THEN V(lf.o = "err")
+            ELSE IF src.k = "D2" /\ hcount # 0 /\ hcount # n * n THEN V(lf.o = "err")      \* a second-order array of the wrong size is an error too
+            ELSE IF src.k = "D2" /\ hcount # 0 /\ \E k \in 1..Len(h) : Len(h[k]) # n THEN "skip"
             ELSE V(lf.o = "ok" /\ ShapeOK(y) /\ y.k = src.k /\ y.re = s.re /\ RestrictOK(y, src, other)
                    /\ (y.k = "D2" => \A a \in NamesOf(other), b \in NamesOf(other) : H(y, a, b) = H(src, a, b)))
     [] s.t \in {"D1clone", "D2clone"} ->
